@@ -158,7 +158,8 @@ func validateOffset(offset string, fieldPath *field.Path) field.ErrorList {
 	if offset == "" {
 		return nil
 	}
-	if _, err := configs.ParseOffset(offset); err != nil {
+	// ParseOffset trims the value; the generators write it as it is
+	if parsed, err := configs.ParseOffset(offset); err != nil || parsed != offset {
 		msg := validation.RegexError(offsetErrMsg, configs.OffsetFmt, "16", "32k", "64M", "2G")
 		return field.ErrorList{field.Invalid(fieldPath, offset, msg)}
 	}
@@ -173,7 +174,8 @@ func validateSize(size string, fieldPath *field.Path) field.ErrorList {
 		return nil
 	}
 
-	if _, err := configs.ParseSize(size); err != nil {
+	// ParseSize trims the value; the generators write it as it is
+	if parsed, err := configs.ParseSize(size); err != nil || parsed != size {
 		msg := validation.RegexError(sizeErrMsg, configs.SizeFmt, "16", "32k", "64M")
 		return field.ErrorList{field.Invalid(fieldPath, size, msg)}
 	}
